@@ -33,7 +33,7 @@ def check(cx):
     prog = cx.prog
     D = Discharger(cx, prog)
 
-    r1 = cx.rule('R14.1', 'matcher/normaliser cannot abort', floor=20, kind='obligation')
+    r1 = cx.rule('R14.1', 'matcher/normaliser cannot abort', floor=12, kind='obligation')
     for name in MATCH_FNS:
         fn = cx.fn(name, 'ChannelModes' if name == 'banned' else None)
         w = cx.walk(fn, key='census')
